@@ -124,8 +124,19 @@ func c12Births(c *ctx) {
 						ch["st"] = []int{yun.GetStartYear(), yun.GetStartMonth(), yun.GetStartDay(), yun.GetStartHour()}
 						ch["ss"] = sol(yun.GetStartSolar())
 						ch["gg"] = yun.GetGender()
+						if f["csect"] == 1 {
+							// the same fortune asked of a fresh chart left on its default convention
+							y2 := s.GetLunar().GetEightChar().GetYunBySect(gender, sect)
+							ch["st2"] = []int{y2.GetStartYear(), y2.GetStartMonth(), y2.GetStartDay(), y2.GetStartHour()}
+						}
 						dys := []obj{}
-						for _, dy := range yun.GetDaYun() {
+						dyl := yun.GetDaYun()
+						if i%5 == 2 {
+							// more periods than the default ten: the rules do not stop there
+							ch["dyn"] = 14
+							dyl = yun.GetDaYunBy(14)
+						}
+						for _, dy := range dyl {
 							o := obj{"v": []int{dy.GetStartYear(), dy.GetEndYear(), dy.GetStartAge(), dy.GetEndAge(), dy.GetIndex(), gzIdx(dy.GetGanZhi())}}
 							ln := [][]int{}
 							for _, x := range dy.GetLiuNian() {
